@@ -363,6 +363,9 @@ class Tokenizer:
                     # other case citation. See #221 and #174
                     citation_tokens.pop(-1)
                     all_tokens.pop(-1)
+                    # the dropped token's text must be emitted again as
+                    # plain text up to the start of the preferred citation
+                    offset = last_token.start
                 else:
                     # skip overlaps
                     continue
